@@ -113,7 +113,7 @@ def main():
         engines.setdefault(c[0], []).append(pid)
     manifest = {
         "version": 1,
-        "setup_cmd": "cd /verif/harness && CARGO_NET_OFFLINE=true cargo build --release --offline && CARGO_NET_OFFLINE=true cargo build --offline --target-dir target-dev",
+        "setup_cmd": "cd /verif/harness && CARGO_NET_OFFLINE=true cargo build --release --offline && CARGO_NET_OFFLINE=true cargo build --profile plain --offline && CARGO_NET_OFFLINE=true cargo build --offline --target-dir target-dev",
         "hooks": {
             "guard": "cargo feature `kiki_verif` of the kiki crate (off by default)",
             "enable": "the harness crate depends on kiki by path with features = [\"kiki_verif\"] (harness/Cargo.toml); every ./check rebuilds it from /repo's working tree",
